@@ -260,8 +260,14 @@ where
                             }
                         }
                     } else {
-                        if !self.contains(&item) {
-                            //will do either binary or linear search
+                        let found = if self.sorted {
+                            //binary search in the original (sorted) part, linear search in what we appended
+                            self.array[..len].binary_search(&item).is_ok()
+                                || self.array[len..].contains(&item)
+                        } else {
+                            self.array.contains(&item)
+                        };
+                        if !found {
                             updated = true;
                             self.add_unchecked(item);
                         }
